@@ -105,3 +105,27 @@ func windowInput(k int) string {
 	ci := vnd.Pick(len(webCtx))
 	return webCtx[ci].pre + vnd.Str(vnd.Len(k)) + webCtx[ci].suf
 }
+
+// nonASCIIScalar / runeWindowInput: as in the url-package harnesses: a window made of symbolic non-ASCII
+// scalar values (whole code space per position), alone, doubled or next to one arbitrary byte.
+func nonASCIIScalar() string {
+	r := rune(vnd.U32())
+	vnd.Assume(r >= 0x80 && ((r <= 0xD7FF) || (r >= 0xE000 && r <= 0x10FFFF)))
+	return string(r)
+}
+
+func runeWindowInput(n int) string {
+	ci := vnd.Pick(len(webCtx))
+	w := nonASCIIScalar()
+	if n >= 2 {
+		switch vnd.Pick(4) {
+		case 1:
+			w = w + nonASCIIScalar()
+		case 2:
+			w = vnd.Str(1) + w
+		case 3:
+			w = w + vnd.Str(1)
+		}
+	}
+	return webCtx[ci].pre + w + webCtx[ci].suf
+}
